@@ -120,17 +120,23 @@ def main():
   drifted = []
   batch = numeric.Batch()
   outcomes = {}
-  for k in chosen:
+  # the same scenarios again with a tiny output channel (weights ~2^-14, bias ~2^-19) under small statistics: the bias scale
+  # s_in * s_w is then below 1e-9 and the weight range at the library's 1e-4 floor (QuantMath!MinBound)
+  tiny = [k for k in fams.get("weights_1op", []) if dumps[k]["scn"]["mode"][0][0]["m"] == "SRQ" and dumps[k]["scn"]["mode"][0][0]["a"] in ("a8a", "a8s")
+          and dumps[k]["scn"]["subs"][0]["ops"][0]["kind"] in ("FC", "TCONV")]
+  jobs = [(k, "grid") for k in chosen] + [(k, "tiny") for k in common.sample_keep(tiny, 40 if args.tier == "quick" else 10**6, args.seed)]
+  for k, variant in jobs:
     d = dumps[k]
     scn = d["scn"]
+    rng_k = np.random.default_rng(args.seed + len(runs))
     try:
-      model, info = synth.build(scn, args.seed, const_fn=numeric.grid_const(np.random.default_rng(args.seed + len(runs))))
+      model, info = synth.build(scn, args.seed, const_fn=numeric.grid_const(rng_k) if variant == "grid" else numeric.tiny_const(rng_k))
     except synth.Unrealisable:
       continue
     if not policy_ok(scn, info["codes"]):
       continue
     try:
-      impl = pipeline.run_impl(scn, seed=args.seed, model=model, info=info)
+      impl = pipeline.run_impl(scn, seed=args.seed, model=model, info=info, stats="inject" if variant == "grid" else numeric.small_stats(scn))
     except ValueError as e:
       outcomes["recipe-refused"] = outcomes.get("recipe-refused", 0) + 1
       continue
@@ -147,7 +153,8 @@ def main():
       drifted.append({"key": k, "scn": scn, "codes": info["codes"], "impl": impl})
       continue
     ctx = numeric.Ctx(scn, impl)
-    run = {"key": k, "scn": scn, "codes": info["codes"], "ctx": ctx, "dump": d, "tensors": [], "impl": impl}
+    run = {"key": k, "scn": scn, "codes": info["codes"], "ctx": ctx, "dump": d, "tensors": [], "impl": impl, "variant": variant}
+    outcomes["variant:" + variant] = outcomes.get("variant:" + variant, 0) + 1
     for si in range(len(scn["subs"])):
       for t, term in enumerate(d["R"][si]["par"]):
         # the term the data was written under (constants) is the last write to the buffer; annotation term otherwise
@@ -226,7 +233,9 @@ def main():
             chk.violation("zero point of %s[%d] = %d, reference %d" % (where, c, gz, zp), dict(rep, clause="zero-point", tensor=tp["name"]))
             break
       # ---- stored bytes of rewritten constants (C05 / C15)
-      if "data" in exp and prop in ("C05", "C15"):
+      if "data" in exp and prop in ("C05", "C15") and run["variant"] == "tiny" and exp["kind"] != "bias":
+        pass      # weights of the tiny variant: 2^-20 grid against a 1/1270000 scale overflows TLC's 32-bit rationals; decoded in the grid variant
+      elif "data" in exp and prop in ("C05", "C15"):
         raw = project.buffer_bytes(run["impl"]["out_bytes"], tp["buf"])
         data = exp["data"]
         n = int(data.size)
